@@ -224,6 +224,9 @@ pub struct Pipe {
     pub s2c_end: Option<(usize, EndKind)>,
     pub end_seen: bool,
     pub cut_noted: bool,
+    pub write_after_close_noted: bool,
+    pub stall_until: Option<u64>,
+    pub w_waker: Option<Waker>,
     pub r_waker: Option<Waker>,
     pub net_waker: Option<Waker>,
     /// offset up to which the network already planned deliveries
